@@ -252,8 +252,14 @@ def smt_atom_2(ctx: Ctx, v1: str, t1: str, v2: str, t2: str) -> Optional[List[An
     return None
 
 
+# `consecutive` is deliberately not generated: ISLa's implementation compares absolute
+# node paths with leaf paths relative to the common-prefix subtree, so that it deviates
+# from "no leaf in between" whenever the common prefix is not the root -- and the
+# shipped reST formalization (LIST_NUMBERING_CONSECUTIVE) depends on exactly that
+# deviation (items separated by a newline leaf count as consecutive).  The predicate
+# has no single meaning the oracle could hold ISLa to (DESIGN.md, findings).
 STRUCT_2 = ["before", "after", "inside", "same_position", "different_position",
-            "consecutive", "direct_child"]
+            "direct_child"]
 
 
 def pred_atom_2(ctx: Ctx, v1: str, t1: str, v2: str, t2: str) -> Optional[List[Any]]:
@@ -438,6 +444,8 @@ def features(f, under_forall: bool = False, under_exists: bool = False, out=None
             out.add(f"count_{kind}_under_forall")
         if f[1][1] == "start":
             out.add("count_on_start")
+        else:
+            out.add(f"count_{kind}_on_quantified_variable")
     elif op == "pred":
         out.add("pred_" + f[1])
     elif op == "smt":
